@@ -415,7 +415,7 @@ pub fn generate(prop: &str, tier: &str, seed: u64, out: &mut impl Write) {
             for f in 0u8..0x80 {
                 for k in 0..9usize {
                     let code = [1u8, 2, 3, 4, 5, 6, 8, 10, 11][k];
-                    w!("excenc EXC N{f:02X} {k} 4 A5");
+                    w!("excenc EXC N{f:02X} {k} 4 A5"); w!("excinto EXC N{f:02X} {k}");
                     w!("excdec {:02X}{:02X}", f + 0x80, code);
                     w!("#@ C02 EXC N{f:02X} {k}");
                     if f % 16 == 3 { w!("#@ C02 EXC C{f:02X} {k}"); w!("excenc EXC C{f:02X} {k} 2 00"); }
@@ -436,6 +436,9 @@ pub fn generate(prop: &str, tier: &str, seed: u64, out: &mut impl Write) {
             } }
             for bc in [1usize, 2, 255] { let mut p = vec![1u8, bc as u8]; p.extend(r.bytes(bc)); let h = hex_of(&p);
                 for k in ["RCS", "RDIS"] { w!("rspenc {k} P{h} 300 A5"); w!("#@ C02 {k} P{h}"); } }
+            for f in [0x80u32, 0x83, 0xFF] { w!("excinto EXC C{f:02X} 1"); w!("excenc EXC C{f:02X} 1 4 A5"); }
+            for sp in ["RES", "DIA 1 W0001 2 00", "GCC", "GCL", "RSI"] { w!("reqlen {sp}"); }
+            for sp in ["RES 5", "DIA W0001 2 00", "GCC 1 2", "GCL 1 2 3 0102", "RSI 0102 1"] { w!("rsplen {sp}"); }
             // the whole exception decode table
             for a in 0..=255u32 { for b in 0..=255u32 { if tier == "thorough" || (a >= 0x7E && a <= 0x82) || a % 37 == 0 || b <= 12 { w!("excdec {a:02X}{b:02X}"); } } }
             for _ in 0..scale(tier, 1500, 40000) {
@@ -895,6 +898,7 @@ pub fn generate(prop: &str, tier: &str, seed: u64, out: &mut impl Write) {
                 let (m, s) = gen_req(r, false);
                 let pl = req_bytes(&m).len();
                 let big = pl > 60;
+                w!("reqlen {s}");
                 for (kind, op, size) in [("req", "reqenc".to_string(), pl), ("req", "rpduenc".to_string(), pl), ("rtureq", "rtuenc req 17".to_string(), pl + 3), ("tcpreq", "tcpenc req 4660 9".to_string(), pl + 7)] {
                     let lens: Vec<usize> = if big { vec![0, 1, 2, 6, 7, 8, size - 2, size - 1, size, size + 1, size + 3] } else { (0..=size + 3).collect() };
                     for l in lens { w!("{op} {s} {l} {}", if r.bool() { "00" } else { "D7" }); }
@@ -903,6 +907,7 @@ pub fn generate(prop: &str, tier: &str, seed: u64, out: &mut impl Write) {
                 let (m, s) = gen_rsp(r, false);
                 let pl = crate_rsp_len(&m);
                 let big = pl > 60;
+                if !matches!(m, RspM::Exc(..)) { w!("rsplen {s}"); }
                 let direct = if let RspM::Exc(..) = m { "excenc" } else { "rspenc" };
                 for (kind, op, size) in [("rsp", "pduenc".to_string(), pl), ("rsp", direct.to_string(), pl), ("rtursp", "rtuenc rsp 17".to_string(), pl + 3), ("tcprsp", "tcpenc rsp 4660 9".to_string(), pl + 7)] {
                     let lens: Vec<usize> = if big { vec![0, 1, 2, 6, 7, 8, size - 2, size - 1, size, size + 1, size + 3] } else { (0..=size + 3).collect() };
